@@ -211,6 +211,72 @@ def exit_status(func, point, exc):
     return r
 
 
+def test_real_archive(pattern, folders, opts):
+    """Cli.run_test with the REAL print_archiveinfo and the real SevenZipFile model on an intact archive: exit status 0"""
+    import builtins
+    import os
+
+    from vf.harness import extract as X
+    from vf.harness import readcases as RC
+
+    r = ObResult(bounds="'t' on an intact reference-written archive of layout %s (sizes/CRCs symbolic), read from a file object "
+                        "as the command does; print_archiveinfo is NOT stubbed" % RC.shape_name(pattern, folders, opts))
+    eng = RC.mk_engine(unroll=1, modules=[CLI, "py7zr.compressor"])
+    sym = RC.symbols(eng, pattern)
+
+    class _St(Native):
+        st_size = 12345
+
+    def harness(e):
+        entries, layout = RC.build(e, pattern, folders, opts, sym)
+        z, fp, w = X.setup_read(e, entries, layout, consume="all-at-once")
+        z.attrs["filename"] = "a.7z"
+        e.models.reg(builtins.open, lambda e_, *a, **k: _F())
+        e.models.reg(os.stat, lambda e_, p_: _St())
+        e.overrides[("py7zr.py7zr", "is_7zfile")] = lambda e_, t: True
+        e.class_models[("py7zr.py7zr", "SevenZipFile")] = lambda e_, *a, **k: z
+        c = _cli(e)
+        try:
+            rc = e.method(c, "run_test", _Args(arcfile="a.7z", verbose=False, password=False, odir=None))
+        except ModelRaise as ex:
+            return dict(escaped="%s%s" % (ex.name, str(ex.eargs)[:80]))
+        finally:
+            e.class_models.pop(("py7zr.py7zr", "SevenZipFile"), None)
+        return dict(rc=rc)
+
+    def post(o):
+        return ["escaped" not in o and o.get("rc") == 0]
+
+    decide(eng, harness, post, RC.inputs_of(sym, pattern, folders), r, describe=lambda o: str(o))
+    _cex(r, "test_real_archive", lambda w: dict(module="vf.props.c19", func="replay_test_real", kwargs=dict(
+        pattern=pattern, folders=folders, opts=opts, witness={k: int(v) for k, v in w.items() if isinstance(v, int)})),
+         signature=lambda w: {"obligation": "test_real_archive", "no_streams": not folders})
+    return r
+
+
+def replay_test_real(pattern, folders, opts, witness):
+    """the real command line on the concrete counterpart"""
+    import os
+    import shutil
+    import subprocess
+    import sys
+    import tempfile
+
+    from vf.props import c06
+
+    img, entries, datas = c06.concrete_case(pattern, folders, opts, witness)
+    d = tempfile.mkdtemp(prefix="vf_c19t_")
+    try:
+        p = os.path.join(d, "a.7z")
+        open(p, "wb").write(img)
+        env = dict(os.environ)
+        out = subprocess.run([sys.executable, "-m", "py7zr", "t", p], capture_output=True, text=True, timeout=120, env=env)
+        return out.returncode != 0, "py7zr t <intact archive %s> exits %d: %s" % (pattern or "(empty)", out.returncode,
+                                                                                  (out.stderr.strip().splitlines() or [""])[-1][:200])
+    finally:
+        shutil.rmtree(d, ignore_errors=True)
+
+
 def replay_exit(func, point, exc, verbose):
     """real Cli method with py7zr.SevenZipFile replaced by a failing stand-in (concrete run of the same scenario)"""
     import argparse
@@ -287,6 +353,10 @@ def units(tier):
                 if tier == "quick" and ex not in (None, "Bad7zFile", "CrcError", "PasswordRequired", "LZMAError", "OSError"):
                     continue
                 us.append(Unit("2.exit_status[%s,%s,%s]" % (func, pt, ex), M, "exit_status", dict(func=func, point=pt, exc=ex), 600))
+    for (p_, f_, o_) in [("f", [1], {}), ("ff", [1, 1], {}), ("fdf", [2], {}), ("d", [], {}), ("", [], {})]:
+        from vf.harness import readcases as RC
+
+        us.append(Unit("4.test_real_archive[%s]" % RC.shape_name(p_, f_, o_), M, "test_real_archive", dict(pattern=p_, folders=f_, opts=o_), 900))
     # (2) ties the exit status to the library's verdict; that the verdict itself tells the truth about damaged data is C04 –
     # the part the command relies on is re-decided here: 't' = test() + testzip() on a file object, 'x' = extractall by path
     from vf.props import c04
